@@ -30,6 +30,17 @@ def run(chk, binary):
         if len(TOKENS[lang]) < max(max(b["toks"]) for b in beh):
             raise vlib.Infra("token table of %s shorter than NTok" % lang)
         texts += [{"lang": lang, "text": " ".join(TOKENS[lang][t - 1] for t in b["toks"])} for b in beh]
+    # clause grammar: well-formed pipelines whose commands take column lists with repetition / permutation
+    beh, r = vlib.tlc_generate("GrammarClauses", "Gen_GrammarClauses.cfg" if quick else "Gen_GrammarClauses_deep.cfg", timeout=900)
+    chk.add_tlc("GrammarClauses", r, "search | clause [| clause] with column lists")
+    for b in beh:
+        parts = [b["search"]]
+        for c in b["clauses"]:
+            if c["by"]:
+                parts.append("%s by %s" % (c["cmd"], ", ".join(c["by"])))
+            else:
+                parts.append("%s %s" % (c["cmd"], ", ".join(c["cols"])))
+        texts.append({"lang": "spl", "text": " | ".join(parts)})
     if not quick:
         beh, r = vlib.tlc_generate("Grammar", "Gen_Grammar_spl_sim.cfg", simulate="num=2000", depth=6, seed=chk.seed, timeout=600)
         chk.add_tlc("Grammar[spl_sim]", r, "sampled longer SPL sequences")
